@@ -22,9 +22,23 @@ def helper_summary(fn):
     """one-level callee summary for pose/attribute helpers: {'restores': attrs, 'overwrites': attrs} of attributes of objects reached
     through the helper's parameters.  A helper *restores* attribute a if all its stores to a are self-slices / saved values."""
     c = T1Client(fn, helpers=None)
+    params = [a.arg for a in fn.args.posonlyargs + fn.args.args]
+    # `for obj, a0 in zip(objs, saved): obj.a = a0` with objs and saved both parameters: a restore *if* the caller hands in the list it
+    # saved from the same objects (decided at the call site)
+    param_restores, pr_ids = {}, set()
+    for loop in ast.walk(fn):
+        if isinstance(loop, ast.For):
+            src = c._sources(loop)
+            for n in ast.walk(loop):
+                if isinstance(n, ast.Assign) and isinstance(n.value, ast.Name) and src.get(n.value.id) in params:
+                    for t in n.targets:
+                        ra = recv_attr(t)
+                        if ra and src.get(ra[0]) in params:
+                            param_restores[ra[1]] = (params.index(src[ra[0]]), params.index(src[n.value.id]))
+                            pr_ids.add(id(n))
     rest = {ra[1] for ra in c.restores.values()}
-    plain = {ra[1] for n, ra in c.stores if id(n) not in c.restores}
-    return {"restores": rest - plain, "overwrites": plain}
+    plain = {ra[1] for n, ra in c.stores if id(n) not in c.restores and id(n) not in pr_ids}
+    return {"restores": rest - plain, "overwrites": plain, "param_restores": {a: v for a, v in param_restores.items() if a not in plain}}
 
 
 class T1Client(BaseClient):
@@ -55,7 +69,7 @@ class T1Client(BaseClient):
                         if isinstance(v, ast.Subscript) and recv_attr(v.value) == ra:
                             self.restores[id(n)] = ra
         # saved in a list, restored in a loop:  L = [v.a for v in C]  ...  for x, a0 in zip(C, L): x.a = a0
-        saved_lists = {}
+        saved_lists = self.saved_lists = {}
         for n in ast.walk(fn):
             if isinstance(n, ast.Assign) and len(n.targets) == 1 and isinstance(n.targets[0], ast.Name) and isinstance(n.value, ast.ListComp) \
                     and len(n.value.generators) == 1 and isinstance(n.value.elt, ast.Attribute) and isinstance(n.value.generators[0].target, ast.Name) \
@@ -78,7 +92,12 @@ class T1Client(BaseClient):
         self.helper_calls = {}
         for n in ast.walk(fn):
             if isinstance(n, ast.Call) and isinstance(n.func, ast.Name) and n.func.id in self.helpers and n.func.id != fn.name:
-                h = self.helpers[n.func.id]
+                h0 = self.helpers[n.func.id]
+                h = {"restores": set(h0["restores"]), "overwrites": set(h0["overwrites"])}
+                for a, (oi, si) in h0.get("param_restores", {}).items():
+                    ok = oi < len(n.args) and si < len(n.args) and isinstance(n.args[si], ast.Name) and \
+                        self.saved_lists.get(n.args[si].id) == (a, ast.unparse(n.args[oi]))
+                    (h["restores"] if ok else h["overwrites"]).add(a)
                 if h["restores"] or h["overwrites"]:
                     self.helper_calls[id(n)] = h
                     rest_attrs |= h["restores"]
@@ -195,6 +214,6 @@ def repo_helpers(repo):
                 h = helper_summary(fn)
             except RecursionError:
                 continue
-            if h["restores"] or h["overwrites"]:
+            if h["restores"] or h["overwrites"] or h.get("param_restores"):
                 out[name] = h
     return out
